@@ -353,7 +353,7 @@ class _Timeout(Exception):
 class _time_limit:
     """turns a fit that does not return (an active-set or line-search loop that never meets an absolute threshold) into a
     failure of the case instead of a hanging check; used for the cases of the dimension sweeps only.  The limit is far
-    above the run time of any fit of this tier (< 1 s), so it does not make results depend on the machine."""
+    above the run time of any fit of the sweeps (< 1 s), so it does not make results depend on the machine."""
 
     def __init__(self, seconds):
         self.seconds = seconds
@@ -401,7 +401,7 @@ def _call_fit(fit_name, model, data, kw, via='direct', seed=0, limit=None, **ext
 
 
 def _limit(case):
-    return 60 if _is_sweep(case) else None
+    return 20 if _is_sweep(case) else None
 
 
 def _fmt(v):
